@@ -6,7 +6,7 @@ import os
 import sys
 import time
 
-CONTRACT_MODULES = ['contracts.l1_utils', 'contracts.l2_core', 'contracts.l3_fxp', 'contracts.l4_arith', 'contracts.l5_convert', 'contracts.l6_misc', 'contracts.l7_bits', 'contracts.l8_div', 'contracts.l9_reduce', 'contracts.l10_sizes', 'contracts.l11_scale', 'contracts.l12_dtype']
+CONTRACT_MODULES = ['contracts.l1_utils', 'contracts.l2_core', 'contracts.l3_fxp', 'contracts.l4_arith', 'contracts.l5_convert', 'contracts.l6_misc', 'contracts.l7_bits', 'contracts.l8_div', 'contracts.l9_reduce', 'contracts.l10_sizes', 'contracts.l11_scale', 'contracts.l12_dtype', 'contracts.l13_strings']
 
 
 def load_contracts():
